@@ -123,6 +123,7 @@ Proof.
   - apply forallb_ext'. intro q. apply auth_explained_ext.
   - rewrite crc_ext. reflexivity.
   - apply forallb_ext'. intro q. apply conn_auth_ext.
+  - rewrite remote_client_ext. reflexivity.
 Qed.
 End Ext.
 
@@ -367,7 +368,7 @@ Theorem known_bits_narrow c :
     (found LCookie secrets wire = true -> cookie_carries r secrets = true) /\
     known_F6b_bits c = ((if found LBody secrets wire then 4 else 0) + (if found LCookie secrets wire then 8 else 0))%N.
 Proof.
-  destruct c as [| | |r remote dbt secrets o_err o_auth o_query wire|r dbt secrets sent| |]; cbn [known_F6b_bits]; try congruence.
+  destruct c as [| | |r remote dbt secrets o_err o_auth o_query wire|r dbt secrets sent| | |]; cbn [known_F6b_bits]; try congruence.
   - intro H. destruct (f6b_bits_narrow _ _ _ _ H) as (-> & H1). exists r, secrets, wire.
     split; [left; exists remote, dbt, o_auth, o_query; reflexivity|exact H1].
   - intro H. destruct (f6b_bits_narrow _ _ _ _ H) as (_ & H1). exists r, secrets, (all_parts sent).
@@ -497,4 +498,31 @@ Proof.
   - rewrite Hp. cbn [andb]. destruct (opt_eqb (Some t) (Some ("v2/" ++ uuid ++ "/" ++ api))) eqn:E; [|reflexivity].
     apply opt_eqb_eq in E. injection E as ->. destruct (Hm u _ Hu uuid api scopes eq_refl eq_refl).
   - rewrite Hp. reflexivity.
+Qed.
+
+(* keepstore: the secrets judged at the wire, in words; and the model sends nothing it did not salt *)
+Lemma ks_secrets_spec token s :
+  In s (ks_secrets token) <->
+  ((exists uuid, v2_fields token uuid s /\ is_salted_secret s = false /\ 40 < String.length s /\ contains s uuid = false) \/
+   (not_v2 token /\ is_obsolete token = true /\ s = token)).
+Proof.
+  unfold ks_secrets. destruct (classify_total token) as [Hn|(u & s' & Hv)].
+  - rewrite (classify_not_v2 _ Hn). destruct (is_obsolete token) eqn:Ho.
+    + split.
+      * intros [<-|[]]. right. auto.
+      * intros [(u & Hv & _)|(_ & _ & ->)]; [destruct (Hn u s Hv)|left; reflexivity].
+    + split; [intros []|]. intros [(u & Hv & _)|(_ & Hf & _)]; [destruct (Hn u s Hv)|discriminate].
+  - rewrite (classify_v2 _ _ _ Hv). destruct (is_salted_secret s') eqn:Hs.
+    + split; [intros []|]. intros [(u' & Hv' & Hs' & _)|(Hn & _)]; [|destruct (Hn u s' Hv)].
+      destruct (v2_fields_fun _ _ _ _ _ Hv Hv') as [_ <-]. congruence.
+    + destruct (Nat.ltb_spec 40 (String.length s')) as [Hl|Hl]; cbn [andb].
+      * destruct (contains s' u) eqn:Hc; cbn [negb].
+        -- split; [intros []|]. intros [(u' & Hv' & _ & _ & Hc')|(Hn & _)]; [|destruct (Hn u s' Hv)].
+           destruct (v2_fields_fun _ _ _ _ _ Hv Hv') as [<- <-]. congruence.
+        -- split.
+           ++ intros [<-|[]]. left. exists u. auto.
+           ++ intros [(u' & Hv' & _)|(Hn & _)]; [|destruct (Hn u s' Hv)].
+              destruct (v2_fields_fun _ _ _ _ _ Hv Hv') as [_ <-]. left. reflexivity.
+      * split; [intros []|]. intros [(u' & Hv' & _ & Hl' & _)|(Hn & _)]; [|destruct (Hn u s' Hv)].
+        destruct (v2_fields_fun _ _ _ _ _ Hv Hv') as [_ <-]. lia.
 Qed.
